@@ -15,7 +15,9 @@ Lemma unstarved_S f w a s : mtx_unstarved (S f) w a s =
       let '(s, id) := listen E0 s in
       let a := set_lis (Some id) a in
       let '(s, prev) := cas W0 0 1 s in
-      if prev =? 0 then let '(a, s) := take_mutex W0 a s in LReady a s
+      if prev =? 0 then
+        let s := drop_listener E0 id s in
+        let '(a, s) := take_mutex W0 (set_lis None a) s in LReady a s
       else if prev =? 1 then mtx_unstarved f w a s
       else LBreak a s
   | Some id =>
@@ -38,7 +40,9 @@ Lemma starved_S f w a s : mtx_starved (S f) w a s =
       let '(s, id) := listen E0 s in
       let a := set_lis (Some id) a in
       let '(s, prev) := cas W0 2 3 s in
-      if prev =? 2 then let '(a, s) := take_mutex W0 a s in LReady a s
+      if prev =? 2 then
+        let s := drop_listener E0 id s in
+        let '(a, s) := take_mutex W0 (set_lis None a) s in LReady a s
       else if prev mod 2 =? 1 then mtx_starved f w a s
       else mtx_starved f w a (notify E0 1 false s)
   | Some id =>
